@@ -42,9 +42,7 @@ Fixpoint has_ptrkeys (n : node) (v : val) {struct n} : bool :=
   end.
 
 (* The verdict of the generated DeepEqual(source, copy) for a faithful copy, in emission order:
-   "1"; "0" at the first non-empty pointer-key map; "P" (panic) at the first struct field of
-   pointer-to-scalar type that is nil - writeNodeDEQ tests the nil-ness of the ENCLOSING struct
-   pointers there and then dereferences the field (a defect of the DeepEqual emitter, C05). *)
+   "1", or "0" at the first non-empty pointer-key map (keys are looked up by identity). *)
 Definition first_bad (a b : string) : string := if String.eqb a "1" then b else a.
 
 Fixpoint deq3 (n : node) (v : val) {struct n} : string :=
@@ -57,11 +55,7 @@ Fixpoint deq3 (n : node) (v : val) {struct n} : string :=
         | VStruct fs => (fix go (cs : list node) (fs : list val) : string :=
                            match cs, fs with
                            | c :: cr, f :: fr =>
-                             let here := match n_typ c, n_ptr c, f with
-                                         | typeBasic, true, VPtr None => "P"
-                                         | _, _, _ => deq3 c f
-                                         end in
-                             first_bad here (go cr fr)
+                             first_bad (deq3 c f) (go cr fr)
                            | _, _ => "1"
                            end) chld fs
         | _ => "1"
